@@ -493,6 +493,7 @@ def program_harnesses(p: Program, want_history=True):
         if s.name in inner:
             continue   # a nested bitfield is inlined in its user's proofs; as a struct of its own it is like any other
         hs += struct_harnesses(p, s)
+        hs += debug_harnesses(p, s)
         hs += builder_harnesses(p, s)
         if want_history:
             hs += history_harnesses(p, s)
@@ -532,6 +533,15 @@ def select(p: Program, hs, prop):
 def support_items(p: Program):
     """spec helpers and Arbitrary impls emitted around the annotated expansion"""
     top, proofs = [], []
+    dbg = [s for s in p.structs if s.debug]
+    if dbg:
+        import os
+        here = os.path.dirname(os.path.dirname(os.path.abspath(__file__)))
+        n = max(debug_max_len(s) for s in dbg) + 1
+        top.append(open(os.path.join(here, "spec", "dbgspec.rs")).read().replace("pub const SINK: usize = 192;", f"pub const SINK: usize = {n};"))
+        for s in p.structs:
+            if s.debug:
+                top.append(debug_spec_fn(s))
     for e in p.enums:
         top.append(e.spec_fns())
         proofs.append(e.arbitrary_impl())
@@ -540,3 +550,89 @@ def support_items(p: Program):
         if s.builder_expected():
             proofs.append(arbitrary_impl_partial(s))
     return "".join(top), "".join(proofs)
+
+
+# --------------------------------------------------------------------------------------------
+# C19: Debug text
+
+def _dec_len(maxv):
+    return len(str(maxv))
+
+
+def debug_max_len(s: Struct, pretty=False, ind=0):
+    """longest possible text of `{:?}` (pretty: `{:#?}`) for struct s"""
+    n = len(s.name) + (2 if not pretty else 2)   # "S {" / "S {"
+    for i, f in enumerate(s.fields):
+        n += (2 if (i or True) else 1) if not pretty else 1 + ind + 4   # ", " or " " / "\n" + indentation
+        n += len(f.name) + 2
+        n += _value_max_len(f.ty, pretty, ind + 4)
+        if pretty:
+            n += 1
+    n += 2 if not pretty else 2 + ind
+    return n + 4
+
+
+def _value_max_len(ty: FT, pretty, ind):
+    k = ty.kind
+    if k == "bool":
+        return 5
+    if k in ("uint", "native"):
+        return _dec_len((1 << ty.width) - 1)
+    if k == "signed":
+        return 1 + _dec_len(1 << (ty.width - 1))
+    if k == "enum":
+        return max(len(vn) for vn, _ in ty.ref.active())
+    if k == "optenum":
+        inner = max(max(len(vn) for vn, _ in ty.ref.active()), _dec_len((1 << ty.width) - 1))
+        return inner + 5 + ((2 * ind + 8) if pretty else 0)
+    if k == "nested":
+        return debug_max_len(ty.ref, pretty, ind)
+    raise ValueError(k)
+
+
+def debug_spec_fn(s: Struct):
+    """Rust fn exp_<S>(raw, pretty, ind, o) writing the text C19 requires, generated from the table"""
+    L = [f"pub fn exp_{s.name}(raw: u128, pretty: bool, ind: usize, o: &mut Sink) {{", f"    o.put(b\"{s.name}\");"]
+    if not s.fields:
+        L.append("}")
+        return "\n".join(L) + "\n"
+    L.append("    o.put(b\" {\");")
+    for i, f in enumerate(s.fields):
+        sep = '" "' if i == 0 else '", "'
+        L.append(f"    if pretty {{ o.put(b\"\\n\"); o.pad(ind + 4); }} else {{ o.put(b{sep}); }}")
+        L.append(f"    o.put(b\"{f.name}: \");")
+        L.append(f"    {{ let bits = get_spec(raw, {f.ranges_lit()}, 0);")
+        k = f.ty.kind
+        if k == "bool":
+            L.append("      if bits == 1 { o.put(b\"true\"); } else { o.put(b\"false\"); }")
+        elif k in ("uint", "native"):
+            L.append("      o.put_dec(bits);")
+        elif k == "signed":
+            L.append(f"      o.put_signed(bits, {f.ty.width});")
+        elif k == "enum":
+            arms = " ".join(f"{hexlit(vv)} => o.put(b\"{vn}\")," for vn, vv in f.ty.ref.active())
+            L.append(f"      match bits {{ {arms} _ => o.put(b\"<no variant>\") }}")
+        elif k == "optenum":
+            arms = " ".join(f"{hexlit(vv)} => {{ o.open_wrap(b\"Ok\", pretty, ind + 4); o.put(b\"{vn}\"); o.close_wrap(pretty, ind + 4); }}"
+                            for vn, vv in f.ty.ref.active())
+            L.append(f"      match bits {{ {arms} _ => {{ o.open_wrap(b\"Err\", pretty, ind + 4); o.put_dec(bits); o.close_wrap(pretty, ind + 4); }} }}")
+        elif k == "nested":
+            L.append(f"      exp_{f.ty.ref.name}(bits, pretty, ind + 4, o);")
+        L.append("    }")
+        L.append("    if pretty { o.put(b\",\"); }")
+    L.append("    if pretty { o.put(b\"\\n\"); o.pad(ind); o.put(b\"}\"); } else { o.put(b\" }\"); }")
+    L.append("}")
+    return "\n".join(L) + "\n"
+
+
+def debug_harnesses(p: Program, s: Struct):
+    if not s.debug:
+        return []
+    n = max(debug_max_len(x) for x in p.structs if x.debug) + 1
+    body = (f"use core::fmt::Write; {any_struct(s, 's_')} let mut k_ = Sink::new(); let r_ = write!(&mut k_, \"{{:?}}\", s_); assert!(r_.is_ok()); "
+            f"let mut e_ = Sink::new(); exp_{s.name}(in_raw as u128, false, 0, &mut e_); assert!(!e_.overflow); assert!(k_.len == e_.len); "
+            f"let mut i_ = 0; while i_ < SINK {{ assert!(k_.buf[i_] == e_.buf[i_]); i_ += 1; }} kani::cover!(true);")
+    h = H(f"h_{p.pid}_{s.name}_debug", "debug", None, body, ["#[kani::proof]", f"#[kani::unwind({n + 3})]"], struct=s,
+          inputs=("in_raw",), needs=[])
+    h.sink = n
+    return [h]
